@@ -62,6 +62,20 @@ R3 = {
  "C14-3": ("MultiThreadRunner scale-up compares the queue with max(current, min_processes) (enforce off)", "deaths that take the pool below min_processes with a queue not larger than min_processes"),
  "C16-3": ("SQLiteStateBackend.iter_history_in_timerange pages by 'timestamp > last' instead of OFFSET", "history entries sharing one timestamp across a page boundary"),
 }
+R3.update({
+ "C01-3": ("MemOrchestrator._atomic_status_transition reads the status record before taking the invocation lock", "two requests for one invocation in flight at once, the second reading while the first is between read and write"),
+ "C02-3": ("SQLite transition rewritten as an optimistic compare-and-set on the status column only", "owner's request in flight while recovery re-queues the invocation and another runner claims it (same status, other owner)"),
+ "C05-3": ("JSON exception envelopes rebuilt with `args or [message]`", "JsonSerializer and an exception raised without arguments"),
+ "C07-3": ("SQLiteOrchestrator.get_existing_invocations as one grouped sub-query (key IN ... AND value IN ...)", "two key arguments whose values overlap across argument names"),
+ "C10-3": ("add_histories starts writer closures that capture the loop variable", "a parallelize batch and writer threads that run late"),
+ "C11-3": ("_kill_and_reroute falls through to reroute_invocations after a refused kill", "a stop while a retrying task's invocation is in RETRY and another in-flight invocation follows in the thread table"),
+ "C12-3": ("last runner's window ends at the cycle end (margin not subtracted)", "margin > 0 that fits into a slot; the last seconds of a cycle"),
+ "C15-3": ("inspect.signature cached by module + qualified name", "two function objects with one qualified name and different defaults in one process"),
+ "C17-3": ("MemStateBackend.purge clears the process-wide app-info registry", "two in-memory apps in one process, one purged, the other's app info read"),
+ "C18-3": ("one shared random.Random reseeded for every value", "two workflows calling wf.random() concurrently with a thread switch between seed() and random()"),
+ "C19-3": ("prepare_arguments builds the merged kwargs once for the whole group", "parallelize(..., common_args=...) with per-call dictionaries of different key sets, sync mode"),
+ "C20-3": ("pynmon format_serialized_arguments truncates long values in place", "in-memory state backend, an inline argument longer than 500 characters, GET of that call's detail page"),
+})
 ALL = {**{k: v for k, v in DESC.items()}, **R2, **R3}
 NOTES.update({})
 import glob
